@@ -45,6 +45,7 @@ class Contract:
         assumed_ensures=None,
         focus=None,
         private=(),
+        join_outcomes=True,
     ):
         self.name = name
         self.params = params or {}
@@ -72,6 +73,7 @@ class Contract:
         # proved in two parts: in a separate run of the body under `assume` (fewer feasible paths, smaller formulas), and in
         # the general run under `not assume`; together the two obligations cover every entry state.
         self.focus = list(focus or [])
+        self.join_outcomes = join_outcomes  # False: every return / raise site keeps its own obligations (small functions with string-heavy results)
         self.private = list(private)  # id prefixes of postconditions that are proved for the body but not assumed at call sites
         self.log = log  # (tag, [param names]) -> the call is appended to the ghost call log ($cl_*)
 
